@@ -2,6 +2,7 @@ import PyribsGen.Formulas
 import PyribsModel.Archive
 import PyribsModel.GridIndex
 import PyribsModel.Sliding
+import PyribsModel.Cqd
 import Mathlib.Algebra.Order.Field.Rat
 import Mathlib.Tactic.Ring
 import Mathlib.Tactic.FieldSimp
@@ -77,6 +78,15 @@ theorem stats_match (a : Arch) :
   · unfold objMean GenF.objMean
     simp only [h, if_false, Option.some.injEq]
     try ring
+
+/-- **G06b `cqd_value_matches`** (C06): the value `cqd_score` maximises over the elites —
+`objective / (obj_max − obj_min) − penalty · distance / dist_max` — for every norm order, penalty and
+target point -/
+theorem cqd_value_matches (ord : Cqd.Ord) (omax omin dmax pen : Rat) (t : List Rat) (e : Cqd.Elite) :
+    Cqd.valueAt ord (omax - omin) dmax pen t e
+      = GenF.cqdValue e.obj omax omin pen (Cqd.dist ord e.meas t) dmax := by
+  unfold Cqd.valueAt GenF.cqdValue
+  rfl
 
 /-- **G15 `boundaries_from_source`** (C15): the boundaries of a remap are the buffered coordinates at
 the ranks `int(j * buffer.size / dims[i])` that `_remap` computes (`j < dims[i]`), followed by the
